@@ -6,14 +6,17 @@ from ..core import HEADER, CASE_TYPE, CHECK, MODEL_VIEW, SHARD, CASE_TIMEOUT, ob
 
 ID = "C02"
 THEOREMS = ["C02_phase_agreement", "C02_label_pass_is_run", "C02_label_binding", "C02_size_agree",
-            "C02_opcode_size_agree", "C02_fail_not_shift", "C02_phase_check", "C02_label_final_value"]
+            "C02_opcode_size_agree", "C02_fail_not_shift", "C02_phase_check", "C02_label_final_value",
+            "C02_trace_oracle", "C02_first_pass_visits"]
 RULE = ("generated programs (all statement kinds, nested blocks/scopes/macros/loops/conditionals, *= and @= moves, "
         "LoROM/HiROM/low2) + width-inference stress programs (constant shadowed by a later label of the same name, "
         "forward/backward symbol operands at every width boundary) + bank-crossing layouts; the per-node addresses of "
         "the label pass and of emission are recorded by wrapping pc_after/emit; non-trivial: assembles and emits bytes")
 PROVED_NOTE = ("proved: phase agreement (a successful assembly emitted every node at its label-pass address, end included); "
                "label/.incbin symbols are bound to the label-pass address; predicted size = emitted size for every node "
-               "kind in one resolver state; failure instead of shifted addresses. Correspondence-only: nodes.py/program.py "
+               "kind in one resolver state; failure instead of shifted addresses; the model satisfies the run-time trace oracle (STrace) "
+               "for every node list and start state (label value = address of its node at emission = address of the next emitting "
+               "node before any position move). Correspondence-only: nodes.py/program.py "
                "compute what the model computes; uniqueness of a label inside one scope is not enforced by the code "
                "(a duplicate keeps the last value) and is outside the statement proved.")
 MANIFEST = {
